@@ -9,7 +9,10 @@
                    `make_report_saving_strategy` (incl. the alias `at_each_event`) on a real event of every class
                    and a real report in which `report.get(location)` raises / returns None / returns a result
                    of every status — `none` = `LookupError` out of the strategy;
-    intervalTable  `SaveAtInterval(n)` on a grid of (last saved, now) instants.
+    intervalTable  `SaveAtInterval(n)` on a grid of (last saved, now) instants;
+    saveOptionTable  which strategy `lcc run` uses: `--save-report` (parsed by the real argparse definitions of `RunCommand`) ×
+                   `$LCC_SAVE_REPORT` (each: absent, empty, every documented name, the deprecated alias, interval spellings,
+                   invalid values) through the real `get_report_saving_strategy`; `none` = rejected (`LemoncheesecakeException`).
 
   If the code's decision changes, `decide` fails here.
 -/
@@ -34,5 +37,9 @@ theorem handlerTable_complete : ∀ c ∈ allClasses, c ∈ handlerTable.map (·
 theorem staticTable_agrees : ∀ r ∈ staticTable, decideStatic r.1.1 r.1.2.1 r.1.2.2 = r.2 := by decide +kernel
 
 theorem intervalTable_agrees : ∀ r ∈ intervalTable, decideInterval r.1.1 r.1.2.1 r.1.2.2 = r.2 := by decide +kernel
+
+/-- the command-line option wins over the environment variable, which wins over the built-in default; empty values count as
+    absent; invalid expressions are rejected -/
+theorem saveOptionTable_agrees : ∀ r ∈ saveOptionTable, chosenStrategy r.1.1 r.1.2 = r.2 := by decide +kernel
 
 end LccModel.Generated.C10
